@@ -53,6 +53,19 @@ pub fn producers<A: Sx>(content: &[A], other: &[A], offsets: &[usize], edits: bo
         let c: Seq<A> = pl.view().into();
         v.push(p("From<&SeqSlice>(same codec)", c, content));
     }
+    // ToOwned::clone_into (also what Cow::clone_from uses): into an empty, a longer and a headed target
+    for &s in offsets.iter().take(3) {
+        let pl = place(content, s, 0);
+        let mut t0 = Seq::<A>::new();
+        pl.view().clone_into(&mut t0);
+        v.push(p(format!("slice@{s}.clone_into(empty)"), t0, content));
+        let mut t1 = build(&flanked(other, 2, 1));
+        pl.view().clone_into(&mut t1);
+        v.push(p(format!("slice@{s}.clone_into(longer)"), t1, content));
+        let mut cow: std::borrow::Cow<SeqSlice<A>> = std::borrow::Cow::Owned(build(other));
+        cow.clone_from(&std::borrow::Cow::Borrowed(pl.view()));
+        v.push(p(format!("Cow::clone_from(borrowed slice@{s}).into_owned()"), cow.into_owned(), content));
+    }
     // FromIterator<&SeqSlice> for Vec<Seq>: owned sequences collected out of windows()/chunks() of a parent
     if n >= 1 {
         for &s in offsets.iter().take(3) {
